@@ -34,6 +34,12 @@ ReqClause(e) ==
   ELSE IF \E k \in 1..Len(e.replies) : e.replies[k].type = 128 /\ ~GoodReply(e.replies[k], id, via, At(a, id))
        THEN <<"C16.ReplyRoute", "a MESH_ADDR_RESPONSE with wrong destination, id, address or physical address">>
   ELSE <<"ok", "">>
+\* a request addressed to another contact, only routed through the master: it is passed along, never served here
+RoutedClause(e) ==
+  IF e.after # e.before THEN <<"C16.ValidChild", "the master leased an address for a request that was made to another node and only routed through it">>
+  ELSE IF \E k \in 1..Len(e.replies) : e.replies[k].type = 128
+       THEN <<"C16.ReplyRoute", "the master answered a request that was made to another node">>
+  ELSE <<"ok", "">>
 RelClause(e) ==
   LET b == Fn(e.before)  a == Fn(e.after)  all == DOMAIN b \cup DOMAIN a IN
   IF ~KeysUnique(e.after) \/ ~Injective(a) THEN <<"C16.Injective", "two ids share an address">>
@@ -55,7 +61,7 @@ Step == /\ verdict[1] = "ok" /\ l <= Len(Tr) /\ l' = l + 1 /\ tid' = tid /\ UNCH
         /\ LET e == Tr[l] IN
            /\ verdict' = CASE e.op = "hang" -> <<"C15.Bounded", "the master's update() did not return (virtual-time watchdog)">>
                              [] e.op = "raise" -> <<"C15.NoRaise", "the master's update() raised while serving a request">>
-                             [] e.op = "req" -> ReqClause(e) [] e.op = "rel" -> RelClause(e)
+                             [] e.op = "req" -> ReqClause(e) [] e.op = "rel" -> RelClause(e) [] e.op = "routed" -> RoutedClause(e)
                            [] e.op = "saveload" -> SaveLoadClause(e)
                            [] e.op = "save" -> <<"ok", "">> [] e.op = "load" -> LoadClause(e)
            /\ drift' = IF e.op = "req" /\ At(Fn(e.after), e.id) # Expected(e) THEN drift + 1 ELSE drift
